@@ -13,6 +13,12 @@
 //     * intermediate-product-overflows / -underflows: otherwise. The statement of C09 excludes only zero and
 //       nearly parallel directions, so the documented frame is demanded there too, under a site of its own
 //       (one site per function, base type and class; the violated relation is named in `expected`).
+//     * operand-subnormal (seed C09-v1; alignZAxisWithTargetDir and rotationMatrixWithUpDir only): a non-zero operand times 2^k
+//       with k in float {-130,-149} / double {-1030,-1074}, i.e. its LARGEST component is a subnormal number (each operand
+//       independently, against every exponent of the other operands). "Whenever their direction arguments are neither zero nor
+//       nearly parallel": a subnormal vector is not zero, and a lattice direction times 2^k is still exactly that direction
+//       (components +-2^k, 0), so the documented frame with the unchanged tolerances is demanded (the reciprocal 2^-k of
+//       such a magnitude is not representable: a construction that forms it breaks down exactly here).
 //     * firstFrame additionally: operand-beyond-sqrt(max) (k = 70 / 520): Vec3::length() itself overflows, the
 //       root cause of the recorded C10 finding `*.float-operand-scaled-1e20`.
 //   Also here (S4): exactly parallel NON-lattice pairs target = v*2^k, up = m*v (m in {2,3,5,7,-1,-2,-3,-5},
@@ -46,14 +52,22 @@ template <class T> struct Lim
 {
     static int hi () { return std::numeric_limits<T>::max_exponent / 2 - 4; } // float 60, double 508
     static int lo () { return std::numeric_limits<T>::min_exponent - 1; }     // float -126, double -1022
-    static std::vector<int> ks (bool with_beyond)
+    // with_subnormal (seed C09-v1): two exponents below min_exponent - 1, so that the LARGEST component of the scaled lattice
+    // direction (+-1 * 2^k) is itself a subnormal number: one inside the subnormal range (float 2^-130, double 2^-1030) and
+    // denorm_min (float 2^-149, double 2^-1074). A lattice direction has components in {-1,0,1}, so the scaled operand is
+    // still exactly that direction. Only alignZAxisWithTargetDir / rotationMatrixWithUpDir take them (see the header).
+    static std::vector<int> ks (bool with_beyond, bool with_subnormal = false)
     {
-        std::vector<int> v = std::numeric_limits<T>::digits > 30 ? std::vector<int>{-600, -500, -340, -180, 0, 180, 340, 500} : std::vector<int>{-80, -60, -45, -25, 0, 25, 45, 60};
-        if (with_beyond) v.push_back (std::numeric_limits<T>::digits > 30 ? 520 : 70);
+        const bool dbl = std::numeric_limits<T>::digits > 30;
+        std::vector<int> v;
+        if (with_subnormal) { v.push_back (dbl ? -1074 : -149); v.push_back (dbl ? -1030 : -130); }
+        for (int k : (dbl ? std::vector<int>{-600, -500, -340, -180, 0, 180, 340, 500} : std::vector<int>{-80, -60, -45, -25, 0, 25, 45, 60})) v.push_back (k);
+        if (with_beyond) v.push_back (dbl ? 520 : 70);
         return v;
     }
+    static bool subnormal_exp (int k) { return k < lo (); }
 };
-enum Cls { IN = 0, OVER = 1, UNDER = 2 };
+enum Cls { IN = 0, OVER = 1, UNDER = 2, SUBN = 3 };
 template <class T> inline Cls cls_of (std::initializer_list<int> exps)
 {
     Cls c = IN;
@@ -64,7 +78,7 @@ template <class T> inline Cls cls_of (std::initializer_list<int> exps)
     }
     return c;
 }
-inline const char* cls_sfx (Cls c) { return c == OVER ? ".intermediate-product-overflows" : c == UNDER ? ".intermediate-product-underflows" : ""; }
+inline const char* cls_sfx (Cls c) { return c == OVER ? ".intermediate-product-overflows" : c == UNDER ? ".intermediate-product-underflows" : c == SUBN ? ".operand-subnormal" : ""; }
 
 // Failure formatting is expensive and the out-of-range classes fail by the million on a tree without the repair:
 // after the first 16 failures reported by a thread at a site the strings are left empty (R().fail keeps only the first 4 per
@@ -78,13 +92,15 @@ inline bool verbose_fail (const std::string& site)
 struct Tally
 {
     long long states = 0, trans = 0;
-    long long al[3] = {0, 0, 0}, al_deg = 0, ud[3] = {0, 0, 0}, clf = 0, ff_in = 0, ff_beyond = 0, ff_col = 0, nf = 0, par_nonlattice = 0, par_second = 0;
+    long long al[4] = {0, 0, 0, 0}, al_deg = 0, ud[4] = {0, 0, 0, 0}, al_sub_target = 0, al_sub_up = 0, ud_sub[3] = {0, 0, 0}, clf = 0, ff_in = 0, ff_beyond = 0, ff_col = 0, nf = 0, par_nonlattice = 0, par_second = 0;
     long long g_rot = 0, g_par = 0, g_anti = 0, g_off = 0, g_xaxis_not_ti = 0;
     double w_axes = 0;
     void merge (const Tally& o)
     {
         states += o.states; trans += o.trans;
-        for (int i = 0; i < 3; ++i) { al[i] += o.al[i]; ud[i] += o.ud[i]; }
+        for (int i = 0; i < 4; ++i) { al[i] += o.al[i]; ud[i] += o.ud[i]; }
+        for (int i = 0; i < 3; ++i) ud_sub[i] += o.ud_sub[i];
+        al_sub_target += o.al_sub_target; al_sub_up += o.al_sub_up;
         al_deg += o.al_deg; clf += o.clf; ff_in += o.ff_in; ff_beyond += o.ff_beyond; ff_col += o.ff_col; nf += o.nf; par_nonlattice += o.par_nonlattice; par_second += o.par_second;
         g_rot += o.g_rot; g_par += o.g_par; g_anti += o.g_anti; g_off += o.g_off; g_xaxis_not_ti += o.g_xaxis_not_ti;
         if (o.w_axes > w_axes) w_axes = o.w_axes;
@@ -155,9 +171,10 @@ template <class T> Cls align_class (const long long* t, const long long* u, int 
 template <class T> void align_scaled (Tally& tl)
 {
     const LD   e  = EPS<T> ();
-    const auto ks = Lim<T>::ks (true);
-    const std::string sOut[3] = {"", site<T> ("alignZAxisWithTargetDir", std::string ("documented-frame.operand-scaled-2^k") + cls_sfx (OVER)),
-                                 site<T> ("alignZAxisWithTargetDir", std::string ("documented-frame.operand-scaled-2^k") + cls_sfx (UNDER))};
+    const auto ks = Lim<T>::ks (true, true);
+    const std::string sOut[4] = {"", site<T> ("alignZAxisWithTargetDir", std::string ("documented-frame.operand-scaled-2^k") + cls_sfx (OVER)),
+                                 site<T> ("alignZAxisWithTargetDir", std::string ("documented-frame.operand-scaled-2^k") + cls_sfx (UNDER)),
+                                 site<T> ("alignZAxisWithTargetDir", std::string ("documented-frame.operand-scaled-2^k") + cls_sfx (SUBN))};
     for (int ti = 0; ti < 27; ++ti)
         for (int ui = 0; ui < 27; ++ui)
         {
@@ -172,6 +189,12 @@ template <class T> void align_scaled (Tally& tl)
                     if (a == 0 && b == 0) continue; // stage "frames"
                     bool deg;
                     Cls  k = align_class<T> (t, u, a, b, &deg);
+                    // a non-zero operand whose largest component is a subnormal number: a class of its own (predicate on
+                    // the operand alone), whatever the other operand is
+                    const bool subT = !iszero (t) && Lim<T>::subnormal_exp (a), subU = !iszero (u) && Lim<T>::subnormal_exp (b);
+                    if (subT || subU) k = SUBN;
+                    if (subT) ++tl.al_sub_target;
+                    if (subU) ++tl.al_sub_up;
                     ++tl.states; ++tl.al[k];
                     if (deg) ++tl.al_deg;
                     Matrix44<T> M = dirty44<T> ();
@@ -233,8 +256,8 @@ template <class T> void parallel_nonlattice (Tally& tl)
 template <class T> void updir_scaled (Tally& total, bool thorough)
 {
     const LD   e  = EPS<T> ();
-    const auto ks = Lim<T>::ks (true);
-    // exponent triples (kf, kt, ku): thorough all 9^3; quick all-equal and one operand scaled
+    const auto ks = Lim<T>::ks (true, true);
+    // exponent triples (kf, kt, ku): thorough all 11^3; quick all-equal and one operand scaled
     std::vector<std::array<int, 3>> combos;
     for (int a : ks)
         for (int b : ks)
@@ -245,8 +268,9 @@ template <class T> void updir_scaled (Tally& total, bool thorough)
                 bool eq = (a == b && b == c);
                 if (thorough || eq || nz == 1) combos.push_back ({{a, b, c}});
             }
-    const std::string sOut[3] = {"", site<T> ("rotationMatrixWithUpDir", std::string ("documented-frame.operand-scaled-2^k") + cls_sfx (OVER)),
-                                 site<T> ("rotationMatrixWithUpDir", std::string ("documented-frame.operand-scaled-2^k") + cls_sfx (UNDER))};
+    const std::string sOut[4] = {"", site<T> ("rotationMatrixWithUpDir", std::string ("documented-frame.operand-scaled-2^k") + cls_sfx (OVER)),
+                                 site<T> ("rotationMatrixWithUpDir", std::string ("documented-frame.operand-scaled-2^k") + cls_sfx (UNDER)),
+                                 site<T> ("rotationMatrixWithUpDir", std::string ("documented-frame.operand-scaled-2^k") + cls_sfx (SUBN))};
     const uint64_t ND = 27 * 27 * 27, N = ND * combos.size ();
     std::mutex     mu;
     const long long UP0[3] = {0, 1, 0};
@@ -265,6 +289,15 @@ template <class T> void updir_scaled (Tally& total, bool thorough)
             {
                 Cls k1 = align_class<T> (f, UP0, kc[0], 0, nullptr), k2 = align_class<T> (t, u, kc[1], kc[2], nullptr);
                 k = (k1 == OVER || k2 == OVER) ? OVER : (k1 == UNDER || k2 == UNDER) ? UNDER : IN;
+            }
+            {
+                // subnormal largest component of a non-zero operand (from / to / up independently): own class
+                const bool sf = !iszero (f) && Lim<T>::subnormal_exp (kc[0]), st = !iszero (f) && !iszero (t) && Lim<T>::subnormal_exp (kc[1]),
+                           su = !iszero (f) && !iszero (u) && Lim<T>::subnormal_exp (kc[2]);
+                if (sf || st || su) k = SUBN;
+                if (sf) ++tl.ud_sub[0];
+                if (st) ++tl.ud_sub[1];
+                if (su) ++tl.ud_sub[2];
             }
             ++tl.states; ++tl.ud[k];
             Matrix44<T> M = rotationMatrixWithUpDir (mkv<T> (f, kc[0]), mkv<T> (t, kc[1]), mkv<T> (u, kc[2]));
@@ -606,6 +639,13 @@ void run_frames_scaled ()
         R ().cls ("scaled.alignZAxis.intermediate-product-overflows", tl.al[OVER]);
         R ().cls ("scaled.alignZAxis.intermediate-product-underflows", tl.al[UNDER]);
         R ().cls ("scaled.alignZAxis.zero-or-exactly-parallel", tl.al_deg);
+        R ().cls ("scaled.alignZAxis.operand-subnormal", tl.al[SUBN]);
+        R ().cls ("scaled.alignZAxis.targetDir-subnormal", tl.al_sub_target);
+        R ().cls ("scaled.alignZAxis.upDir-subnormal", tl.al_sub_up);
+        R ().cls ("scaled.rotationMatrixWithUpDir.operand-subnormal", tl.ud[SUBN]);
+        R ().cls ("scaled.rotationMatrixWithUpDir.fromDir-subnormal", tl.ud_sub[0]);
+        R ().cls ("scaled.rotationMatrixWithUpDir.toDir-subnormal", tl.ud_sub[1]);
+        R ().cls ("scaled.rotationMatrixWithUpDir.upDir-subnormal", tl.ud_sub[2]);
         R ().cls ("scaled.rotationMatrixWithUpDir.in-range", tl.ud[IN]);
         R ().cls ("scaled.rotationMatrixWithUpDir.intermediate-product-overflows", tl.ud[OVER]);
         R ().cls ("scaled.rotationMatrixWithUpDir.intermediate-product-underflows", tl.ud[UNDER]);
@@ -618,8 +658,10 @@ void run_frames_scaled ()
         R ().cls ("alignZAxis.exactly-parallel-non-lattice.second-fallback", tl.par_second);
         R ().sample ("alignZAxisWithTargetDir(target=(1,0,0)*2^45, up=(0,1,0)*2^45) float: up x target = 2^90 is finite, target x (up x target) = 2^135 is not");
         R ().sample ("alignZAxisWithTargetDir(target=(1,2,3), up=(3,6,9)): cross product exactly 0 with no 0/+-1 component");
-        const std::string bound = std::string ("operands = lattice directions x 2^k, k in float {-80,-60,-45,-25,0,25,45,60,70} / double {-600,-500,-340,-180,0,180,340,500,520}: alignZAxisWithTargetDir 27^2 x 9^2; "
-                                               "rotationMatrixWithUpDir 27^3 x ") + (th ? "9^3" : "(all-equal + one-operand)") + " exponent triples; computeLocalFrame (xDir,normal) x 8^2 x 3 origins; "
+        R ().sample ("alignZAxisWithTargetDir(target=(1,-1,0)*2^-149, up=(0,1,0)) float: the largest component of target is denorm_min; 2^149 is not a float");
+        const std::string bound = std::string ("operands = lattice directions x 2^k, k in float {-80,-60,-45,-25,0,25,45,60,70} / double {-600,-500,-340,-180,0,180,340,500,520}, for alignZAxisWithTargetDir and "
+                                               "rotationMatrixWithUpDir also the subnormal magnitudes float {-149,-130} / double {-1074,-1030}: alignZAxisWithTargetDir 27^2 x 11^2; "
+                                               "rotationMatrixWithUpDir 27^3 x ") + (th ? "11^3" : "(all-equal + one-operand)") + " exponent triples; computeLocalFrame (xDir,normal) x 8^2 x 3 origins; "
                                   "firstFrame L(1)^3 triples x 9 common exponents and pi=0 x 9^2; nextFrame on every " + (th ? "7th" : "29th") +
                                   " triple x 26 tangents x exponent pairs; exactly parallel non-lattice (target,up) 8 x 8 x 3^2; float and double";
         if (cut) R ().stage_partial (bound); else R ().stage_done (bound);
